@@ -37,7 +37,7 @@ type Kind struct {
 	Rep       int    `json:"rep"`
 }
 
-var kinds = []string{"http/uri", "http/uri+preload", "http/uripost", "http/raw", "http/jsonline", "http/jsonline+preload+shared-client", "connect/uri",
+var kinds = []string{"http/uri", "http/uri+noconfheaders", "http/uri+preload", "http/uripost", "http/raw", "http/jsonline", "http/jsonline+preload+shared-client", "connect/uri",
 	"http/scenario", "http/scenario+rand", "http/scenario+failing-steps+phout", "grpc/json", "grpc/json+shared-client", "grpc/scenario", "grpc/scenario+failing-steps+phout", "mock/ownership", "http/uri+phout+composite"}
 
 func skipType(t reflect.Type) bool {
@@ -108,6 +108,10 @@ func httpKind(res *vkit.Result, k Kind) {
 			if i%10 == 0 {
 				fmt.Fprintf(&file, "[X-Common: c%d]\n", i)
 			}
+			if strings.Contains(k.Name, "noconfheaders") {
+				// a header line before every entry: the request must carry its own entry's value
+				fmt.Fprintf(&file, "[X-Vid: %d]\n", i)
+			}
 			fmt.Fprintf(&file, "/u?vid=%d tag%d\n", i, i%3)
 		case "uripost":
 			body := fmt.Sprintf("payload vid=%d %s", i, strings.Repeat("x", i))
@@ -124,6 +128,9 @@ func httpKind(res *vkit.Result, k Kind) {
 	defer vkit.RemoveMem(path)
 	ammoType := map[string]string{"uri": "uri", "uripost": "uripost", "raw": "raw", "jsonline": "http/json"}[format]
 	ammo := map[string]any{"type": ammoType, "file": path, "headers": []any{"[X-Conf: conf]", "[User-Agent: verif]"}}
+	if strings.Contains(k.Name, "noconfheaders") {
+		delete(ammo, "headers")
+	}
 	if strings.Contains(k.Name, "preload") {
 		ammo["preload"] = true
 	}
